@@ -162,6 +162,13 @@ def parseOp (ws : List String) : Option Op :=
   | ["lpcfg", c, mask] => some (.lpcfg (parseLP c) (natArg mask))
   | ["cver", v, mask] => some (.cver (parseVersion (undash v)) (natArg mask))
   | ["rmode", c, mask] => (parseRMode c).map (fun c => .rmode c (natArg mask))
+  | ["foreign", "sched", c] => (parseSched c).map (fun c => .foreign (.sched c))
+  | ["foreign", "repl", c] => (parseRepl c).map (fun c => .foreign (.repl c))
+  | ["foreign", "pdsrv", c] => (parsePd c).map (fun c => .foreign (.pd c))
+  | ["foreign", "lpcfg", c] => some (.foreign (.labels (parseLP c)))
+  | ["foreign", "cver", v] => (parseVersion (undash v)).map (fun v => .foreign (.version v))
+  | ["foreign", "rmode", c] => (parseRMode c).map (fun c => .foreign (.rmode c))
+  | ["reload"] => some .reload
   | _ => none
 
 def resStr : Res → String
@@ -217,7 +224,8 @@ def step (d : DState) (opLine : String) (impl : String) : DState × StepOut :=
     -- the state after a reset is what the implementation serves (defaults of the server under test)
     match i.obs, section_ (impl.splitOn " ; ") "served" with
     | some o, some sv =>
-      let s : St := { served := o.served, stored := some o.served, rule := parseRule sv, registered := registered }
+      let s0 : St := { served := o.served, stored := some o.served, rule := parseRule sv }
+      let s : St := { s0 with registered := registered, defaults := defaults }
       ({ model := some s, pre := some o }, { model := "ok ; " ++ dump s [] })
     | _, _ => ({}, { model := "bad-reset" })
   | _ =>
